@@ -4,15 +4,18 @@
 #include "vcommon.h"
 #include <algorithm>
 #include <unordered_set>
+#include <unordered_map>
 
 using namespace asmjit;
 
 extern "C" int asmjit_verif_jitallocator_check(const void* allocator, char* msg, size_t msg_size, size_t* info);
 
 enum OpKind : int { OP_ALLOC, OP_RELEASE, OP_SHRINK, OP_QUERY, OP_WRITE, OP_WRITE_TRUNC, OP_RESET_SOFT, OP_RESET_HARD,
-                    OP_STATS, OP_FOREIGN, OP_RELEASE_ALL, OP_QUERY_DEAD, OP_COUNT };
+                    OP_STATS, OP_FOREIGN, OP_RELEASE_ALL, OP_QUERY_DEAD, OP_ALLOC_HUGE, OP_STALE_SHRINK, OP_MISUSE, OP_COUNT };
 static const char* kOpNames[] = { "alloc", "release", "shrink", "query", "write", "write_trunc", "reset_soft", "reset_hard",
-                                  "stats", "foreign", "release_all", "query_dead" };
+                                  "stats", "foreign", "release_all", "query_dead", "alloc_huge", "stale_shrink", "misuse" };
+
+static const uint32_t kOptCustomPattern = 0x10000000u;
 
 struct Op { int kind; uint64_t a; uint64_t b; };
 
@@ -47,6 +50,19 @@ struct Stats {
   uint64_t bytes_verified = 0;
   uint64_t fill_checked = 0;
   uint64_t reuse_observed = 0;
+  // dimensions added in round 11 (each one is reported; the Python side turns "observed nothing" into exit 2)
+  uint64_t custom_pattern_allocators = 0;   // allocators created with kCustomFillPattern whose accessor and memory were compared with the REQUESTED pattern
+  uint64_t ignored_pattern_allocators = 0;  // allocators given a fill_pattern without kCustomFillPattern (must be ignored)
+  uint64_t huge_requests = 0, huge_refused = 0;
+  uint64_t nonlive_queries = 0;             // query() of a granule next to a live span that no live span covers
+  uint64_t stale_shrinks = 0;               // shrink() through a span that was released while its block still exists
+  uint64_t release_fill_checked = 0;        // released / shrunk-away ranges read back right after the call (block known to survive)
+  uint64_t overhead_checks = 0, overhead_exact_checks = 0;
+  uint64_t invalid_param_allocators = 0, valid_block_size_allocators = 0;
+  uint64_t os_map_checks = 0, os_map_checks_after_hard_reset = 0, os_map_checks_after_destroy = 0;
+  uint64_t scoped_writes = 0, policy_writes = 0;
+  uint64_t misuse_probes = 0;
+  uint64_t dense_histories = 0;
   std::unordered_set<uint64_t> distinct;
   std::unordered_set<uint64_t> distinct_nontrivial;
 };
@@ -54,6 +70,36 @@ struct Stats {
 static Stats g_stats;
 static std::vector<Violation> g_viol;
 static bool g_verbose = false;
+
+// What a default-constructed allocator reports (documented defaults; taken from the library, not hard-coded), and the
+// calibration of statistics().overhead_size() as a function of (blocks, granules).
+struct Reference {
+  uint32_t granularity = 0, block_size = 0, fill_pattern = 0;
+  double overhead_per_block = 0, overhead_per_granule = 0;
+  bool overhead_calibrated = false;
+};
+static Reference g_ref;
+static JitAllocator* g_other = nullptr;            // a second allocator, owner of "foreign" spans
+static JitAllocator::Span g_other_span;
+
+// Sizes of the mappings JitAllocator creates, as the operating system sees them: anonymous private rwx (single mapping)
+// and anonymous shared file mappings (both views of a dual mapping: memfd "vmem", or the shm/tmp fallbacks).
+struct OsMaps { uint64_t rwx_anon = 0, shared_anon = 0; };
+static uint64_t g_os_every = 1, g_os_tick = 0;
+static OsMaps read_os_maps() {
+  OsMaps m;
+  FILE* f = fopen("/proc/self/maps", "r");
+  if (!f) return m;
+  char line[1024];
+  while (fgets(line, sizeof line, f)) {
+    unsigned long lo = 0, hi = 0; char perms[8] = {0};
+    if (sscanf(line, "%lx-%lx %7s", &lo, &hi, perms) != 3) continue;
+    if (strstr(line, "/memfd:vmem") || strstr(line, "/shm-id-")) m.shared_anon += hi - lo;
+    else if (perms[0] == 'r' && perms[1] == 'w' && perms[2] == 'x' && perms[3] == 'p') m.rwx_anon += hi - lo;
+  }
+  fclose(f);
+  return m;
+}
 
 struct Runner {
   Config cfg;
@@ -77,7 +123,18 @@ struct Runner {
   uint32_t pattern = 0;
   uint64_t sum_live_bytes = 0;
 
-  explicit Runner(const Config& c) : cfg(c) {
+  uint32_t requested_pattern = 0;      // what the configuration asks for (custom) or what a default allocator reports
+  bool os_probe = true;
+  OsMaps os_base;
+  std::unordered_map<const void*, uint32_t> block_live;   // Span::_block -> number of live spans in it
+  struct Stale { JitAllocator::Span span; };
+  std::vector<Stale> stale;            // copies of spans that were released (for stale-span probes)
+
+  static bool valid_granularity(uint32_t g) { return g == 64 || g == 128 || g == 256; }
+  static bool valid_block_size(uint32_t b) { return b >= 64 * 1024 && b <= 256u * 1024 * 1024 && (b & (b - 1)) == 0; }
+
+  explicit Runner(const Config& c, bool probe_os = true) : cfg(c), os_probe(probe_os) {
+    if (os_probe) os_base = read_os_maps();
     JitAllocator::CreateParams p;
     p.options = JitAllocatorOptions(c.options);
     p.granularity = c.granularity;
@@ -90,18 +147,94 @@ struct Runner {
     immediate = alloc->has_option(JitAllocatorOptions::kImmediateRelease);
     padding = !alloc->has_option(JitAllocatorOptions::kDisableInitialPadding);
     pool_count = alloc->has_option(JitAllocatorOptions::kUseMultiplePools) ? 3 : 1;
-    pattern = alloc->fill_pattern();
+    // The pattern the memory is compared with is the one that was ASKED for, not the one the accessor reports:
+    // kCustomFillPattern -> CreateParams::fill_pattern; otherwise the parameter is documented as unused and the allocator
+    // must behave like a default-constructed one.
+    requested_pattern = (c.options & kOptCustomPattern) ? c.fill_pattern : g_ref.fill_pattern;
+    pattern = requested_pattern;
+    if (c.options & kOptCustomPattern) g_stats.custom_pattern_allocators++;
+    else if (c.fill_pattern) g_stats.ignored_pattern_allocators++;
+    if (alloc->fill_pattern() != requested_pattern) {
+      char b[200];
+      snprintf(b, sizeof b, "fill_pattern() reports %08x, %s %08x", alloc->fill_pattern(),
+               (c.options & kOptCustomPattern) ? "kCustomFillPattern was given with" : "without kCustomFillPattern a default allocator reports", requested_pattern);
+      fail((c.options & kOptCustomPattern) ? "fill-pattern-accessor:custom-not-honoured" : "fill-pattern-accessor:not-default", b);
+      failed = false;
+    }
     if (!alloc->is_initialized()) {
       fail("is_initialized-false-on-working-allocator", "is_initialized() returned false for an allocator that was constructed successfully");
       failed = false;  // not fatal for the history
     }
     if (gran != (c.granularity ? c.granularity : 64u) && (c.granularity == 64 || c.granularity == 128 || c.granularity == 256))
       fail("granularity-not-honoured", "granularity() differs from the requested valid granularity");
+    // CreateParams normalisation (documented: an invalid value selects the default)
+    bool odd = false;
+    if (c.granularity && !valid_granularity(c.granularity)) {
+      odd = true;
+      if (gran != g_ref.granularity) {
+        char b[160]; snprintf(b, sizeof b, "granularity %u is not valid, granularity() is %u instead of the default %u", c.granularity, gran, g_ref.granularity);
+        fail("invalid-granularity-not-defaulted", b);    // (the history is not run on an allocator with unexpected parameters)
+      }
+    }
+    if (c.block_size && !valid_block_size(c.block_size)) {
+      odd = true;
+      if (alloc->block_size() != g_ref.block_size) {
+        char b[160]; snprintf(b, sizeof b, "block size %u is not valid, block_size() is %u instead of the default %u", c.block_size, alloc->block_size(), g_ref.block_size);
+        fail("invalid-block-size-not-defaulted", b);
+      }
+    }
+    else {
+      uint32_t want = c.block_size ? c.block_size : g_ref.block_size;
+      if (c.block_size) g_stats.valid_block_size_allocators++;
+      if (alloc->block_size() != want) {
+        char b[160]; snprintf(b, sizeof b, "block_size() is %u, requested %u (valid)", alloc->block_size(), want);
+        fail("block-size-not-honoured", b);
+      }
+    }
+    if (odd) g_stats.invalid_param_allocators++;
+    uint32_t bs = alloc->block_size();
+    if (!valid_granularity(gran) || bs == 0 || (bs & (bs - 1)) != 0) {
+      char b[160]; snprintf(b, sizeof b, "allocator reports granularity %u and block size %u", gran, bs);
+      fail("allocator-parameters-unusable", b);
+    }
   }
-  ~Runner() { delete alloc; }
+  ~Runner() {
+    delete alloc;
+    alloc = nullptr;
+    if (os_probe && !failed && (g_os_tick++ % g_os_every) == 0) {
+      g_stats.os_map_checks_after_destroy++;
+      os_compare(0, "after the allocator was destroyed");
+    }
+  }
 
-  void fail(const std::string& key, const std::string& what) {
-    failed = true;
+  // What the operating system maps for this allocator must be what statistics().reserved_size() accounts for: a block
+  // that was deleted (release of the last span, reset, destructor) must be unmapped in both views.
+  void os_compare(size_t reserved, const char* when) {
+    OsMaps now = read_os_maps();
+    g_stats.os_map_checks++;
+    uint64_t rwx = now.rwx_anon - os_base.rwx_anon, shm = now.shared_anon - os_base.shared_anon;
+    uint64_t want_rwx = dual ? 0 : reserved, want_shm = dual ? 2 * uint64_t(reserved) : 0;
+    if (rwx != want_rwx || shm != want_shm) {
+      char b[300];
+      snprintf(b, sizeof b, "%s: the process maps %llu bytes of anonymous rwx memory and %llu bytes of anonymous shared memory more than before the allocator "
+               "existed; reserved_size()=%zu with dual mapping %s accounts for %llu and %llu", when, (unsigned long long)rwx, (unsigned long long)shm, reserved,
+               dual ? "on" : "off", (unsigned long long)want_rwx, (unsigned long long)want_shm);
+      bool more = rwx > want_rwx || shm > want_shm;
+      failed = true;   // (keeps the destructor path from reporting twice)
+      report(more ? "os-mapping:more-mapped-than-reserved" : "os-mapping:less-mapped-than-reserved", b);
+    }
+  }
+  // reading /proc/self/maps costs about a millisecond: after a hard reset / destruction 1 in g_os_every is checked, at the
+  // other points 1 in 4 * g_os_every
+  void os_check(const char* when, bool strong = false) {
+    if (!os_probe || failed) return;
+    if ((g_os_tick++ % (strong ? g_os_every : 4 * g_os_every)) != 0) return;
+    if (strong) g_stats.os_map_checks_after_hard_reset++;
+    os_compare(alloc->statistics().reserved_size(), when);
+  }
+
+  void fail(const std::string& key, const std::string& what) { failed = true; report(key, what); }
+  void report(const std::string& key, const std::string& what) {
     for (auto& v : g_viol) if (v.key == key) return;
     std::string h = "[";
     size_t n = history.size();
@@ -187,6 +320,7 @@ struct Runner {
       snprintf(b, sizeof b, "statistics(): reserved=%zu used=%zu blocks=%zu vs walk reserved=%zu blocks=%zu (%s)", st.reserved_size(), st.used_size(), st.block_count(), info[5], info[0], when);
       fail("stats-reserved-or-blocks", b);
     }
+    check_overhead(st, info, when);
     if (live.empty()) {
       size_t allowed = immediate ? 0 : pool_count;
       if (st.block_count() > allowed) {
@@ -194,6 +328,43 @@ struct Runner {
         snprintf(b, sizeof b, "nothing is live but %zu blocks are retained (policy allows %zu); blocks holding only padding=%zu, flagged empty=%zu (%s)", st.block_count(), allowed, info[2], info[1], when);
         fail(info[2] > info[1] ? "empty-block-retained:not-flagged-empty" : "empty-block-retained:flagged", b);
       }
+    }
+  }
+
+  // statistics().overhead_size() and the derived getters. The overhead is bookkeeping memory per block: it must be a
+  // function of the block set - zero without blocks, and (calibrated from two fresh one-block allocators at start-up) the
+  // same linear function of (blocks, granules) throughout a history: a drift means a block was inserted/removed/reset
+  // with different amounts.
+  void check_overhead(const JitAllocator::Statistics& st, const size_t* info, const char* when) {
+    char b[300];
+    g_stats.overhead_checks++;
+    if (st.unused_size() != st.reserved_size() - st.used_size()) {
+      snprintf(b, sizeof b, "unused_size()=%zu but reserved-used=%zu (%s)", st.unused_size(), st.reserved_size() - st.used_size(), when);
+      fail("stats-derived-getters", b);
+    }
+    double ur = st.used_ratio(), nr = st.unused_ratio();
+    if (st.reserved_size() && (ur < 0 || ur > 1.0000001 || nr < 0 || nr > 1.0000001 || ur + nr < 0.999999 || ur + nr > 1.000001)) {
+      snprintf(b, sizeof b, "used_ratio()=%g unused_ratio()=%g with used=%zu reserved=%zu (%s)", ur, nr, st.used_size(), st.reserved_size(), when);
+      fail("stats-derived-getters", b);
+    }
+    if ((st.overhead_size() == 0) != (st.block_count() == 0)) {
+      snprintf(b, sizeof b, "overhead_size()=%zu with %zu blocks (%s)", st.overhead_size(), st.block_count(), when);
+      fail("stats-overhead:zero-iff-no-blocks", b);
+      return;
+    }
+    if (!g_ref.overhead_calibrated || st.block_count() == 0) return;
+    // granules per pool are not visible from outside: with one pool the value is exact, with several pools it lies between
+    // the values for the smallest and the largest pool granularity
+    size_t gmin = SIZE_MAX, gmax = 0;
+    for (size_t p = 0; p < 3; p++) { size_t g = info[8 + 3 * p + 2]; if (info[8 + 3 * p] && g) { gmin = std::min(gmin, g); gmax = std::max(gmax, g); } }
+    if (!gmax) return;
+    double lo = g_ref.overhead_per_block * double(st.block_count()) + g_ref.overhead_per_granule * double(st.reserved_size() / gmax);
+    double hi = g_ref.overhead_per_block * double(st.block_count()) + g_ref.overhead_per_granule * double(st.reserved_size() / gmin);
+    if (gmin == gmax) g_stats.overhead_exact_checks++;
+    if (double(st.overhead_size()) < lo - 0.5 || double(st.overhead_size()) > hi + 0.5) {
+      snprintf(b, sizeof b, "overhead_size()=%zu with %zu blocks reserving %zu bytes; fresh allocators account %.1f bytes per block + %.4f per granule, i.e. [%.1f, %.1f] (%s)",
+               st.overhead_size(), st.block_count(), st.reserved_size(), g_ref.overhead_per_block, g_ref.overhead_per_granule, lo, hi, when);
+      fail("stats-overhead:drift", b);
     }
   }
 
@@ -218,8 +389,38 @@ struct Runner {
         }
       }
     }
-    if (size == 0 || size > 0x7FFFFFFFull) {
+    if (size == 0) {
       if (e == Error::kOk) fail("alloc-accepts-invalid-size", "alloc accepted size " + std::to_string(size));
+      return false;
+    }
+    if (size > 0x7FFFFFFFull) {
+      // Requests no block can hold (sizes whose rounding up to the granularity wraps around, sizes that do not fit the 32-bit
+      // area arithmetic). Refusing is fine; accepting is only fine with a real span of at least that size that the
+      // bookkeeping accounts for. The memory is never touched.
+      g_stats.huge_requests++;
+      g_stats.ops[OP_ALLOC_HUGE]++;
+      if (e != Error::kOk) {
+        g_stats.huge_refused++;
+        if (s.rx() || s.size()) fail("alloc-failed-but-span-set", "alloc(" + std::to_string(size) + ") failed but left a non-empty span");
+        h2("after-refused-huge-alloc");
+        return false;
+      }
+      char hb[300];
+      size_t info[20]; char m2[300];
+      int rc = asmjit_verif_jitallocator_check(alloc, m2, sizeof m2, info);
+      if (!s.rx() || s.size() < size) {
+        snprintf(hb, sizeof hb, "alloc(%zu = 0x%zx) succeeded with rx=%p size=%zu", size, size, s.rx(), s.size());
+        fail("alloc-accepts-invalid-size", hb);
+      }
+      else if (rc != 0 || info[3] != live.size() + 1 || info[4] != sum_live_bytes + s.size() + info[6]) {
+        snprintf(hb, sizeof hb, "alloc(%zu = 0x%zx) succeeded but the bookkeeping does not account for it: h2=%d (%s) allocations=%zu used=%zu, model %zu spans + this one, %llu bytes + %zu",
+                 size, size, rc, rc ? m2 : "", info[3], info[4], live.size(), (unsigned long long)sum_live_bytes, s.size());
+        fail("alloc-huge-not-accounted", hb);
+      }
+      else {
+        if (alloc->release(s.rx()) != Error::kOk) fail("release-failed", "release of a huge span failed");
+        h2("after-huge-alloc-release");
+      }
       return false;
     }
     if (e != Error::kOk) {
@@ -263,27 +464,93 @@ struct Runner {
     live[rx] = std::move(l);
     rwmap[rw] = rx;
     order.push_back(rx);
+    block_live[s._block]++;
+    // a block the allocator maps again may come back at the address (and malloc'd header) of a deleted one
+    stale.erase(std::remove_if(stale.begin(), stale.end(), [&](const Stale& t) {
+      uintptr_t a = (uintptr_t)t.span.rx();
+      return t.span._block == s._block ? (a < rx + s.size() && rx < a + t.span.size()) : false; }), stale.end());
     verify_contents(live[rx], "after-alloc-write");
     g_stats.max_live = std::max<uint64_t>(g_stats.max_live, live.size());
     return true;
   }
 
-  void forget(uintptr_t rx) {
+  // returns true when the block of the forgotten span still holds another live span (so it certainly still exists)
+  bool forget(uintptr_t rx) {
     Live& l = live[rx];
+    JitAllocator::Span sp = l.span;
     sum_live_bytes -= l.span.size();
     rwmap.erase((uintptr_t)l.span.rw());
     dead.push_back({rx, l.span.size()});
     if (dead.size() > 64) dead.erase(dead.begin());
     live.erase(rx);
     order.erase(std::find(order.begin(), order.end(), rx));
+    auto it = block_live.find(sp._block);
+    bool survives = false;
+    if (it != block_live.end()) {
+      if (--it->second == 0) {
+        block_live.erase(it);
+        // the block may be unmapped now (and its header address recycled later): its stale spans are no longer probed
+        stale.erase(std::remove_if(stale.begin(), stale.end(), [&](const Stale& t) { return t.span._block == sp._block; }), stale.end());
+      }
+      else survives = true;
+    }
+    if (survives) {
+      stale.push_back({sp});
+      if (stale.size() > 32) stale.erase(stale.begin());
+    }
+    return survives;
+  }
+
+  // memory that was just given back must carry the fill pattern (only read while its block certainly exists)
+  void check_released_fill(uintptr_t p, uintptr_t rw, size_t n, const char* when) {
+    if (!fill || !n) return;
+    g_stats.release_fill_checked++;
+    for (int view = 0; view < 2; view++) {
+      const uint8_t* m = (const uint8_t*)(view ? rw : p);
+      uint8_t pat[4]; memcpy(pat, &pattern, 4);
+      for (size_t i = 0; i < n; i++) {
+        if (m[i] != pat[((uintptr_t)m + i) & 3]) {
+          char b[260];
+          snprintf(b, sizeof b, "fill enabled, but memory given back by %s [%p,+%zu) holds %02x at offset %zu in the %s view (pattern %08x)", when, (void*)p, n, m[i], i, view ? "rw" : "rx", pattern);
+          fail(std::string("fill-pattern-missing:after-") + when, b);
+          return;
+        }
+      }
+      if (rw == p) break;
+    }
   }
 
   void do_release(uintptr_t rx) {
     log(OP_RELEASE, live[rx].id);
     verify_contents(live[rx], "before-release");
+    JitAllocator::Span sp = live[rx].span;
     Error e = alloc->release((void*)rx);
     if (e != Error::kOk) { fail("release-failed", "release of a live span failed with error " + std::to_string((int)e)); }
-    forget(rx);
+    bool survives = forget(rx);
+    if (survives && e == Error::kOk) check_released_fill(rx, (uintptr_t)sp.rw(), sp.size(), "release");
+  }
+
+  // A span that was released while its block lives on: shrink() through the stale span must be refused and must not
+  // change anything (the granule is free, or belongs to nobody this span describes).
+  void do_stale_shrink(Rng& r) {
+    if (stale.empty()) return;
+    size_t k = r.below(stale.size());
+    Stale t = stale[k];
+    uintptr_t a = (uintptr_t)t.span.rx();
+    if (!block_live.count(t.span._block) || overlaps_live_rx(a, 1)) return;
+    log(OP_STALE_SHRINK, t.span.size());
+    g_stats.stale_shrinks++;
+    JitAllocator::Span c = t.span;
+    size_t ns = r.chance(1, 3) ? 1 : r.chance(1, 2) ? c.size() : 1 + r.below(c.size());
+    Error e = alloc->shrink(c, ns);
+    if (e == Error::kOk) {
+      char b[200]; snprintf(b, sizeof b, "shrink(span [%p,+%zu) that was released earlier, %zu) succeeded; no live span covers %p", t.span.rx(), t.span.size(), ns, t.span.rx());
+      fail("stale-shrink-accepted", b);
+      return;
+    }
+    if (c.rx() != t.span.rx() || c.size() != t.span.size()) fail("shrink-failed-but-changed", "refused shrink of a stale span changed the span");
+    h2("after-stale-shrink");
+    if (live.size() <= 64) for (auto& kv : live) verify_contents(kv.second, "after-stale-shrink");
   }
 
   void do_shrink(uintptr_t rx, size_t new_size) {
@@ -293,11 +560,12 @@ struct Runner {
     size_t old = l.span.size();
     if (new_size == 0) {
       verify_contents(l, "before-shrink0");
-      JitAllocator::Span s = l.span;
+      JitAllocator::Span s = l.span, sp = l.span;
       Error e = alloc->shrink(s, 0);
       if (e != Error::kOk) fail("shrink0-failed", "shrink(span,0) failed");
       if (s.rx() != nullptr) fail("shrink0-span-not-cleared", "shrink(span,0) did not clear the span");
-      forget(rx);
+      bool survives = forget(rx);
+      if (survives && e == Error::kOk) check_released_fill(rx, (uintptr_t)sp.rw(), sp.size(), "shrink-to-0");
       return;
     }
     JitAllocator::Span s = l.span;
@@ -324,6 +592,7 @@ struct Runner {
     l.span = s;
     l.shadow.resize(s.size());
     verify_contents(l, "after-shrink");
+    if (s.size() < old) check_released_fill(rx + s.size(), (uintptr_t)s.rw() + s.size(), old - s.size(), "shrink");
   }
 
   void do_query(uintptr_t rx) {
@@ -335,6 +604,20 @@ struct Runner {
     if (q.rx() != l.span.rx() || q.rw() != l.span.rw() || q.size() != l.span.size()) {
       char b[240]; snprintf(b, sizeof b, "query(%p) returned rx=%p rw=%p size=%zu, live span is rx=%p rw=%p size=%zu", (void*)rx, q.rx(), q.rw(), q.size(), l.span.rx(), l.span.rw(), l.span.size());
       fail("query-mismatch", b);
+    }
+    // granules next to the span that no live span covers (initial padding of the block, free or never used memory, memory
+    // outside any block): queries reflect exactly the live spans, so these must fail
+    for (int side = 0; side < 2; side++) {
+      uintptr_t np = side ? rx + l.span.size() : rx - gran;
+      if (overlaps_live_rx(np, 1)) continue;
+      g_stats.nonlive_queries++;
+      JitAllocator::Span qn;
+      if (alloc->query(Out(qn), (void*)np) == Error::kOk) {
+        char b[240]; snprintf(b, sizeof b, "query(%p) succeeded (rx=%p size=%zu): the address is the granule %s the live span [%p,+%zu) and no live span covers it",
+                              (void*)np, qn.rx(), qn.size(), side ? "after" : "before", (void*)rx, l.span.size());
+        fail(side ? "query-nonlive-succeeds:after-span" : "query-nonlive-succeeds:before-span", b);
+        return;
+      }
     }
     // interior pointer: whatever is returned must stay inside the live span
     if (l.span.size() > gran) {
@@ -371,7 +654,36 @@ struct Runner {
     log(OP_WRITE, l.id, off);
     std::vector<uint8_t> data(n);
     for (auto& x : data) x = uint8_t(r.next());
-    Error e = alloc->write(l.span, off, data.data(), n);
+    Error e;
+    switch (r.below(4)) {
+      case 0: {
+        // several spans written under one WriteScope (the documented way to batch writes)
+        JitAllocator::WriteScope scope(*alloc, r.chance(1, 2) ? VirtMem::CachePolicy::kDefault : VirtMem::CachePolicy::kNeverFlush);
+        e = scope.write(l.span, off, data.data(), n);
+        g_stats.scoped_writes++;
+        if (e == Error::kOk && live.size() > 1) {
+          auto it = live.upper_bound(rx);
+          if (it == live.end()) it = live.begin();
+          Live& o = it->second;
+          if (&o != &l) {
+            size_t n2 = std::min<size_t>(o.span.size(), data.size());
+            Error e2s = scope.write(o.span, o.span.size() - n2, data.data(), n2);
+            if (e2s != Error::kOk) fail("write-failed", "in-range write under a WriteScope failed");
+            else memcpy(o.shadow.data() + (o.span.size() - n2), data.data(), n2);
+            g_stats.scoped_writes++;
+          }
+        }
+        (void)scope.flush();
+        break;
+      }
+      case 1:
+        e = alloc->write(l.span, off, data.data(), n, r.chance(1, 2) ? VirtMem::CachePolicy::kNeverFlush : VirtMem::CachePolicy::kFlushAfterWrite);
+        g_stats.policy_writes++;
+        break;
+      default:
+        e = alloc->write(l.span, off, data.data(), n);
+        break;
+    }
     if (e != Error::kOk) { fail("write-failed", "in-range write failed"); return; }
     memcpy(l.shadow.data() + off, data.data(), n);
     // out-of-range write must be refused and change nothing
@@ -391,7 +703,7 @@ struct Runner {
         char b[160]; snprintf(b, sizeof b, "write(span of %zu bytes, offset %zu, size %zu) succeeded", sz, pr[0], pr[1]);
         fail("write-out-of-range-accepted", b);
       }
-      for (auto& kv : live) verify_contents(kv.second, "after-refused-write");
+      if (live.size() <= 64 || r.chance(1, 16)) for (auto& kv : live) verify_contents(kv.second, "after-refused-write");
     }
     verify_contents(l, "after-write");
   }
@@ -417,13 +729,14 @@ struct Runner {
     l.shadow.resize(s.size());
     memset(l.shadow.data(), ctx.v, new_size);
     verify_contents(l, "after-write-trunc");
+    if (s.size() < old) check_released_fill(rx + s.size(), (uintptr_t)s.rw() + s.size(), old - s.size(), "write-truncate");
   }
 
   void do_reset(bool hard) {
     log(hard ? OP_RESET_HARD : OP_RESET_SOFT);
     for (auto& kv : live) verify_contents(kv.second, "before-reset");
     alloc->reset(hard ? ResetPolicy::kHard : ResetPolicy::kSoft);
-    live.clear(); rwmap.clear(); order.clear(); dead.clear();
+    live.clear(); rwmap.clear(); order.clear(); dead.clear(); stale.clear(); block_live.clear();
     sum_live_bytes = 0;
     JitAllocator::Statistics st = alloc->statistics();
     size_t allowed = (hard || immediate) ? 0 : pool_count;
@@ -433,13 +746,12 @@ struct Runner {
       fail("reset-retains-blocks", b);
     }
     h2("after-reset");
+    os_check(hard ? "after reset(kHard)" : "after reset(kSoft)", hard);
   }
 
   void do_foreign(Rng& r) {
     log(OP_FOREIGN);
-    static JitAllocator other;
-    static JitAllocator::Span ospan;
-    if (!ospan.rx()) { Error e = other.alloc(Out(ospan), 128); (void)e; }
+    JitAllocator::Span& ospan = g_other_span;
     uint8_t on_stack[64];
     void* heap = malloc(256);
     void* cands[] = { on_stack, heap, ospan.rx(), (void*)uintptr_t(0x10), (void*)uintptr_t(0x7fffffff0000ull) };
@@ -472,11 +784,13 @@ struct Runner {
       if (failed) return;
     }
     h2(mode == 0 ? "after-release-all-lifo" : mode == 1 ? "after-release-all-fifo" : "after-release-all-random");
+    os_check("after everything was released");
   }
 
   void end_of_history() {
     for (auto& kv : live) verify_contents(kv.second, "end");
     h2("end");
+    os_check("at the end of the history");
     g_stats.histories++;
     g_stats.max_blocks = std::max(g_stats.max_blocks, peak_blocks);
     g_stats.distinct.insert(hist_hash);
@@ -499,17 +813,27 @@ static size_t pick_size(Rng& r, uint32_t block) {
   }
 }
 
+static const size_t kHugeSizes[] = { 0x80000000ull, 0x80000001ull, 0xFFFFFFFFull, 1ull << 32, (1ull << 32) + 64, 1ull << 38, 1ull << 40, SIZE_MAX / 2 + 1,
+                                     SIZE_MAX - 255, SIZE_MAX - 63, SIZE_MAX - 62, SIZE_MAX - 1, SIZE_MAX };
+
+// style 0/1/2: mixed sizes / small multiples of 64 / few live spans; style 3: dense - many (400..1500) live spans of 1..3
+// granules, no release-all and no reset, so that blocks fill up with hundreds of spans and holes and the pools grow.
 static void random_history(const Config& cfg, uint64_t seed, size_t nops, int style) {
   Rng r(seed);
   Runner R(cfg);
   uint32_t block = R.alloc->block_size();
-  size_t max_live = 8 + r.below(style == 2 ? 24 : 200);
+  bool dense = style == 3;
+  size_t max_live = dense ? 400 + r.below(1100) : 8 + r.below(style == 2 ? 24 : 200);
+  if (dense) g_stats.dense_histories++;
   for (size_t i = 0; i < nops && !R.failed; i++) {
     uint64_t c = r.below(100);
-    R.check_reuse = r.chance(1, 6);
-    if (R.live.empty() || (c < 38 && R.live.size() < max_live)) {
-      size_t sz = style == 1 ? 64 * (1 + r.below(6)) : pick_size(r, block);
+    R.check_reuse = r.chance(1, dense ? 24 : 6);
+    if (R.live.empty() || (c < (dense ? 52u : 38u) && R.live.size() < max_live)) {
+      size_t sz = dense ? size_t(R.gran) * (1 + r.below(3)) - (r.chance(1, 4) ? r.below(R.gran) : 0)
+                : style == 1 ? 64 * (1 + r.below(6)) : pick_size(r, block);
       if (r.chance(1, 200)) sz = 0;
+      // (not with kFillUnusedMemory: an allocator that lost its size limit would map AND touch gigabytes per request)
+      else if (!R.fill && r.chance(1, 150)) sz = kHugeSizes[r.below(sizeof(kHugeSizes) / sizeof(kHugeSizes[0]))];
       R.do_alloc(sz);
     }
     else {
@@ -518,6 +842,7 @@ static void random_history(const Config& cfg, uint64_t seed, size_t nops, int st
       if (how == 0) rx = R.order.back();
       else if (how == 1) rx = R.order.front();
       else rx = R.order[r.below(R.order.size())];
+      if (dense && how != 2 && r.chance(2, 3)) rx = R.order[r.below(R.order.size())];   // holes in the middle
       if (c < 38 || c < 68) R.do_release(rx);
       else if (c < 76) {
         size_t sz = R.live[rx].span.size();
@@ -527,9 +852,10 @@ static void random_history(const Config& cfg, uint64_t seed, size_t nops, int st
       else if (c < 82) R.do_query(rx);
       else if (c < 88) R.do_write(rx, r);
       else if (c < 91) R.do_write_trunc(rx, 1 + r.below(R.live[rx].span.size()));
-      else if (c < 93) R.do_query_dead();
+      else if (c < 93) { if (r.chance(1, 2)) R.do_query_dead(); else R.do_stale_shrink(r); }
       else if (c < 95) R.do_foreign(r);
       else if (c < 97) { g_stats.ops[OP_STATS]++; R.h2("stats"); }
+      else if (dense) R.do_stale_shrink(r);
       else if (c < 99) R.do_release_all(int(r.below(3)), r);
       else R.do_reset(r.chance(1, 2));
     }
@@ -539,6 +865,72 @@ static void random_history(const Config& cfg, uint64_t seed, size_t nops, int st
     R.end_of_history();
     if (r.chance(1, 2)) R.do_release_all(int(r.below(3)), r);
   }
+}
+
+// Pointers that alloc() never returned, or returned and took back, handed to release(): one probe per short history
+// (a probe the allocator accepts leaves its bookkeeping in an unknown state, so nothing else shares the history).
+//   kind 0: the granule in front of the first span of a block (the block's initial padding)
+//   kind 1: an interior granule of a live span of >= 2 granules
+//   kind 2: a pointer that was released before, while another live span keeps the block alive behind it
+static const char* kMisuseNames[3] = { "block-padding", "interior-pointer", "released-pointer" };
+static void misuse_history(const Config& cfg, uint64_t seed, int kind) {
+  Rng r(seed);
+  Runner R(cfg);
+  uint32_t g = R.gran;
+  size_t n = 3 + r.below(8);
+  for (size_t i = 0; i < n && !R.failed; i++) R.do_alloc(size_t(g) * (1 + r.below(6)) * (r.chance(1, 3) ? 4 : 1));
+  if (R.failed || R.order.size() < 3) return;
+  uintptr_t first = R.order.front();
+  uintptr_t target = 0;
+  std::string what;
+  if (kind == 0) {
+    if (!R.padding) return;
+    target = first - g;
+    if (R.overlaps_live_rx(target, 1)) return;
+    what = "the granule in front of the first span ever allocated (initial padding of the block)";
+  }
+  else if (kind == 1) {
+    for (uintptr_t rx : R.order) {
+      Live& l = R.live[rx];
+      // stay below the last granule of the allocator's own granule size: an interior granule of the span in every pool
+      if (l.span.size() >= size_t(g) * 8) { target = rx + size_t(g) * 4; break; }
+    }
+    if (!target) return;
+    what = "a pointer 4 granules into a live span";
+  }
+  else {
+    // release a span that has a live successor in the same block at a higher address, then release it again
+    for (size_t i = 0; i + 1 < R.order.size(); i++) {
+      uintptr_t a = R.order[i], b = R.order[i + 1];
+      if (R.live[a].span._block == R.live[b].span._block && b > a) { target = a; break; }
+    }
+    if (!target) return;
+    R.do_release(target);
+    if (R.failed || R.overlaps_live_rx(target, 1)) return;
+    what = "a pointer that was released already (its block still holds a live span)";
+  }
+  R.log(OP_MISUSE, uint64_t(kind));
+  g_stats.misuse_probes++;
+  R.h2("before-misuse-probe");
+  if (R.failed) return;
+  Error e = R.alloc->release((void*)target);
+  if (e == Error::kOk) {
+    JitAllocator::Statistics st = R.alloc->statistics();
+    char b[400];
+    snprintf(b, sizeof b, "release(%p) succeeded; the pointer is %s and was not a live span start. statistics() now: allocations=%zu used=%zu, the %zu live spans hold %llu bytes",
+             (void*)target, what.c_str(), st.allocation_count(), st.used_size(), R.live.size(), (unsigned long long)R.sum_live_bytes);
+    R.os_probe = false;
+    R.fail(std::string("release-accepts-non-span-pointer:") + kMisuseNames[kind], b);
+    return;
+  }
+  // refused: nothing may have changed, and the allocator keeps working
+  R.h2("after-refused-release");
+  for (auto& kv : R.live) R.verify_contents(kv.second, "after-refused-release");
+  for (size_t i = 0; i < 24 && !R.failed; i++) {
+    if (R.live.empty() || r.chance(1, 2)) R.do_alloc(size_t(g) * (1 + r.below(6)));
+    else R.do_release(R.order[r.below(R.order.size())]);
+  }
+  if (!R.failed) R.end_of_history();
 }
 
 // Bounded-exhaustive enumeration: every op sequence up to `depth` over a small alphabet on a minimum-size block.
@@ -552,7 +944,7 @@ struct Exh {
 
   // One choice is encoded as an int: [0, nsizes) alloc; then per live index: release, shrink-to-1-granule, shrink-half; then soft reset.
   void run_path(const std::vector<int>& p) {
-    Runner R(cfg);
+    Runner R(cfg, (count & 63) == 1);
     for (int c : p) {
       if (R.failed) break;
       int ns = (int)sizes.size();
@@ -601,12 +993,45 @@ int main(int argc, char** argv) {
   cfg.fill_pattern = (uint32_t)a.u64("fill-pattern", 0);
   uint64_t seed = a.u64("seed", 1);
   std::string mode = a.str("mode", "random");
+  g_os_every = std::max<uint64_t>(1, a.u64("os-every", 1));
+
+  // reference values of a default allocator, a second allocator for foreign spans, calibration of overhead_size()
+  {
+    g_other = new JitAllocator();
+    g_ref.granularity = g_other->granularity();
+    g_ref.block_size = g_other->block_size();
+    g_ref.fill_pattern = g_other->fill_pattern();
+    Error e = g_other->alloc(Out(g_other_span), 128); (void)e;
+    JitAllocator::CreateParams p2;
+    p2.block_size = g_ref.block_size * 4;
+    JitAllocator big(&p2);
+    JitAllocator::Span s2;
+    if (e == Error::kOk && big.alloc(Out(s2), 128) == Error::kOk) {
+      JitAllocator::Statistics s1 = g_other->statistics(), sb = big.statistics();
+      double g1 = double(s1.reserved_size() / g_ref.granularity), gb = double(sb.reserved_size() / big.granularity());
+      if (s1.block_count() == 1 && sb.block_count() == 1 && gb > g1 && sb.overhead_size() >= s1.overhead_size()) {
+        g_ref.overhead_per_granule = double(sb.overhead_size() - s1.overhead_size()) / (gb - g1);
+        g_ref.overhead_per_block = double(s1.overhead_size()) - g_ref.overhead_per_granule * g1;
+        g_ref.overhead_calibrated = g_ref.overhead_per_block >= 0;
+      }
+      (void)big.release(s2.rx());
+    }
+  }
 
   if (mode == "random") {
     size_t nh = a.u64("histories", 10), nops = a.u64("ops", 2000);
+    int only_style = a.has("style") ? int(a.u64("style", 0)) : -1;
     for (size_t h = 0; h < nh; h++) {
       Rng r(seed * 1000003 + h);
-      random_history(cfg, r.next(), nops, int(h % 3));
+      int style = only_style >= 0 ? only_style : int((h + seed) % 4);     // (jobs with a single history still cover all styles between them)
+      random_history(cfg, r.next(), style == 3 ? nops * 2 : nops, style);
+    }
+  }
+  else if (mode == "misuse") {
+    size_t nh = a.u64("histories", 30);
+    for (size_t h = 0; h < nh; h++) {
+      Rng r(seed * 1000003 + h);
+      misuse_history(cfg, r.next(), int(h % 3));
     }
   }
   else if (mode == "exh") {
@@ -630,6 +1055,23 @@ int main(int argc, char** argv) {
          (unsigned long long)g_stats.max_blocks, (unsigned long long)g_stats.bytes_verified, (unsigned long long)g_stats.fill_checked,
          (unsigned long long)g_stats.reuse_observed);
   for (int i = 0; i < OP_COUNT; i++) printf("%s\"%s\":%llu", i ? "," : "", kOpNames[i], (unsigned long long)g_stats.ops[i]);
+  printf("},\"dims\":{");
+  {
+    const std::pair<const char*, uint64_t> dims[] = {
+      {"custom_pattern_allocators", g_stats.custom_pattern_allocators}, {"ignored_pattern_allocators", g_stats.ignored_pattern_allocators},
+      {"huge_requests", g_stats.huge_requests}, {"huge_refused", g_stats.huge_refused}, {"nonlive_queries", g_stats.nonlive_queries},
+      {"stale_shrinks", g_stats.stale_shrinks}, {"release_fill_checked", g_stats.release_fill_checked},
+      {"overhead_checks", g_stats.overhead_checks}, {"overhead_exact_checks", g_stats.overhead_exact_checks},
+      {"overhead_calibrated", uint64_t(g_ref.overhead_calibrated)},
+      {"invalid_param_allocators", g_stats.invalid_param_allocators}, {"valid_block_size_allocators", g_stats.valid_block_size_allocators},
+      {"os_map_checks", g_stats.os_map_checks}, {"os_map_checks_after_hard_reset", g_stats.os_map_checks_after_hard_reset},
+      {"os_map_checks_after_destroy", g_stats.os_map_checks_after_destroy},
+      {"scoped_writes", g_stats.scoped_writes}, {"policy_writes", g_stats.policy_writes},
+      {"misuse_probes", g_stats.misuse_probes}, {"dense_histories", g_stats.dense_histories},
+    };
+    bool f = true;
+    for (auto& d : dims) { printf("%s\"%s\":%llu", f ? "" : ",", d.first, (unsigned long long)d.second); f = false; }
+  }
   printf("},\"distinct\":[");
   { bool f = true; for (uint64_t h : g_stats.distinct_nontrivial) { printf("%s%llu", f ? "" : ",", (unsigned long long)h); f = false; } }
   printf("],\"distinct_all\":%zu}\n", g_stats.distinct.size());
